@@ -16,6 +16,9 @@ LEAVES2 = [dict(vec=False, rg=True), dict(vec=False, rg=True)]
 def run(ctx):
     if ctx.replay:
         import json
+        if (json.load(open(ctx.replay))["replay"] or {}).get("spec") == "NNCatalog":
+            from .. import cat_common as CC
+            return CC.replay_file(ctx, ctx.replay, {"second_backward"}, replayer=CC.NN_REPLAYER)
         if (json.load(open(ctx.replay))["replay"] or {}).get("spec") == "Modules":
             from .. import hist_common as HC
             return HC.replay_file(ctx, ctx.replay, {"grads"}, "Modules", ("replay_modules", "ModReplayer"), set_consts=("Names", "Acts"))
@@ -75,6 +78,12 @@ def run(ctx):
     for name, consts, num in sims:
         mx, table, c = AG.emit(rep, name, consts, simulate="num=%d" % num, depth=80, seed=ctx.seed + 11, workers=1)
         AG.replay_all(ctx, rep, mx, table, c, KINDS, dtypes=(np.float32,), label=name + ":")
+    # "repeat backward on the same graph" for EVERY operation, layer and loss (not only the operators of the Autograd
+    # instances): the catalogue replays run a second sweep over each recorded graph; what an operation saved for its
+    # backward pass must survive the first sweep
+    from .. import cat_common as CC
+    ncases = [c for c in CC.nn_cases(ctx, rep, with_grad=True) if c["pol"] == "MUST"]
+    CC.replay(ctx, rep, ncases, {"second_backward"}, dtypes=(np.float32,), replayer=CC.NN_REPLAYER, spec="NNCatalog")
     # "zero via module" on module TREES (Modules.tla): registrations on a nested module interleaved with gradients and
     # zero_grad on an ancestor - every reachable parameter is reset, also one registered after the ancestor was first walked
     from .. import hist_common as HC
